@@ -235,26 +235,37 @@ def validate_traces(rep, spec, wd, execs, want, tag="trace"):
     """TLC trace validation of the executions, in parallel chunks. Returns (sites, n_ok)."""
     from concurrent.futures import ThreadPoolExecutor
     target = 25000  # trace lines per chunk
-    chunks, cur, n = [], [], 0
-    for ex in execs:
-        cur.append(ex)
-        n += len(ex)
-        if n >= target:
+    chunks, tail_chunks = [], set()
+    # tail-split executions cut slices in two (a fence may land in the second half): validated in chunks of their own,
+    # their memory orders are not used to instantiate the model
+    for is_tail in (False, True):
+        cur, n = [], 0
+        for ex in execs:
+            if bool(ex[0].get("tailsplit")) != is_tail:
+                continue
+            cur.append(ex)
+            n += len(ex)
+            if n >= target:
+                if is_tail:
+                    tail_chunks.add(len(chunks))
+                chunks.append(cur)
+                cur, n = [], 0
+        if cur:
+            if is_tail:
+                tail_chunks.add(len(chunks))
             chunks.append(cur)
-            cur, n = [], 0
-    if cur:
-        chunks.append(cur)
     with ThreadPoolExecutor(max_workers=min(6, max(1, len(chunks)))) as pool:
         cols = list(pool.map(lambda a: _validate_chunk(spec, wd, a[1], want, "%s%d" % (tag, a[0])), enumerate(chunks)))
     sites = {}
     total_ok = 0
-    for col in cols:
+    for ci, col in enumerate(cols):
         for r, what in col.tlc:
             rep.add_tlc(r, what)
         if col.error:
             raise MachineryError(col.error)
         for k, v in col.sites.items():
-            sites.setdefault(k, set()).update(v)
+            if ci not in tail_chunks:
+                sites.setdefault(k, set()).update(v)
         rep.drift.extend(col.drift)
         rep.notes.extend(col.notes)
         for key, what, replay in col.violations:
